@@ -582,7 +582,7 @@ def sibling(ctx, report, facts, config, rule="C17.SIBLING"):
               "get / get_mut diverge: only get: %s; only get_mut: %s" % ([x[:300] for x in sa if x not in sb][:2], [x[:300] for x in sb if x not in sa][:2]), site=gm.loc(), config=config)
 
 
-def run(ctx, report):
+def _run_rules(ctx, report):
     for config in ctx.configs:
         facts = ctx.facts(config)
         report.guard("C17.REGISTER", register, ctx, report, facts, config)
@@ -592,3 +592,10 @@ def run(ctx, report):
         report.guard("C17.SIBLING", sibling, ctx, report, facts, config)
     if ctx.tier == "thorough":
         witness.check(report, "C17.WITNESS", ["W9"])
+
+
+def run(ctx, report):
+    _run_rules(ctx, report)
+    from .. import shared as _S
+    for config in ctx.configs:
+        report.guard("C17.ENCAPSULATED", _S.encapsulated, ctx, report, "C17.ENCAPSULATED", ctx.facts(config), config, "C17")
